@@ -2,11 +2,14 @@
 """Print the prompt given to a mutation sub-agent for one property (only the property text + its worktree)."""
 import json, sys
 pid = sys.argv[1]
+round2 = len(sys.argv) > 2 and sys.argv[2] == '2'
 for l in open('/verif/properties.jsonl'):
     p = json.loads(l)
     if p['id'] == pid: break
 else: sys.exit('no such property')
 wt = f'/tmp/wt-{pid}'
+a, b = (3, 4) if round2 else (1, 2)
+extra = (f" Two earlier changes already exist under {wt}/mutation/1 and {wt}/mutation/2 (read their README.md): yours must use DIFFERENT mechanisms and different functions from those, and should aim at parts of the property statement those two do not touch." if round2 else "")
 print(f"""You are helping test a verification framework by producing realistic *breaking changes* (mutations) to a C library. Work ONLY inside the git worktree {wt} (a checkout of the farsightsec/mtbl library: immutable sorted string tables, LevelDB-style). Do NOT read or write /repo or /verif or any other worktree under /tmp.
 
 Build recipe for the worktree (about 25 s): cd {wt} && autoreconf -fi >/dev/null 2>&1 && ./configure >/dev/null 2>&1 && make -j16 >/dev/null 2>&1 && make check 2>&1 | grep -E '^# (TOTAL|PASS|FAIL)'   (must report 15 passing tests). Object files can also be compiled directly: gcc -O1 -g -include {wt}/config.h -I{wt} -I{wt}/mtbl -c {wt}/mtbl/*.c {wt}/libmy/{{crc32c,crc32c-slicing,crc32c-sse42,heap,my_fileset}}.c ; link with -lz -llz4 -lzstd -lsnappy -lpthread.
@@ -18,10 +21,10 @@ The property that must be BROKEN:
   Quantified over: {p['quantifier']['text']}
   Code it is anchored in: {', '.join(p['anchors']['files'])}
 
-Task: produce TWO independent changes (different mechanisms, ideally in different functions) to the library source (files under mtbl/ or libmy/ or src/; not the tests under t/) such that, for each change taken alone:
+Task:{extra} Produce TWO independent changes (different mechanisms, ideally in different functions) to the library source (files under mtbl/ or libmy/ or src/; not the tests under t/) such that, for each change taken alone:
   1. the library still compiles and the existing test suite (make check) still passes 15/15;
   2. the property above is violated for some input / configuration / history / schedule;
   3. the violation needs something specific to manifest (an unusual input, a boundary size, a particular multi-step sequence of operations, a particular interleaving or fault, or two cooperating sites that each look fine alone) - NOT something ordinary use would expose at once. It should look like a plausible bug a maintainer could introduce (off-by-one, wrong comparison, missing update of a field, wrong constant at a boundary, reordered statements), not sabotage. Do not simply revert one of the recent 'fix:' commits in git log.
 For each change write a small demonstration program (C, using the public API in mtbl/mtbl.h or internal headers) that exits non-zero / prints FAIL WITH the change and exits 0 / prints PASS WITHOUT it. Verify both directions yourself.
 
-Deliverables (write them under {wt}/mutation/1/ and {wt}/mutation/2/): patch.diff (output of `git diff` for the library source only, applicable with `git apply` at the worktree root, made against the unmodified HEAD), demo.c (+ run.sh that builds the library objects from the tree it is run in and runs the demo; run.sh takes the tree root as $1), README.md (what breaks, what it needs to manifest, what you ran). Leave the worktree's tracked files UNMODIFIED at the end (git checkout -- . ; the mutation/ directory is untracked and stays). Keep your final answer to a few lines per change: file/function changed, one-sentence mechanism, what is needed to manifest.""")
+Deliverables (write them under {wt}/mutation/{a}/ and {wt}/mutation/{b}/): patch.diff (output of `git diff` for the library source only, applicable with `git apply` at the worktree root, made against the unmodified HEAD), demo.c (+ run.sh that builds the library objects from the tree it is run in and runs the demo; run.sh takes the tree root as $1), README.md (what breaks, what it needs to manifest, what you ran). Leave the worktree's tracked files UNMODIFIED at the end (git checkout -- . ; the mutation/ directory is untracked and stays). Keep your final answer to a few lines per change: file/function changed, one-sentence mechanism, what is needed to manifest.""")
